@@ -165,7 +165,7 @@ def check_file(res, rng):
     lines = []
     expected = []          # (frame name, expected dict, include, text)
     frame = None
-    glob_include = None
+    glob = {}
     nst = rng.randint(1, 8)
     for _ in range(nst):
         what = rng.random()
@@ -178,7 +178,14 @@ def check_file(res, rng):
             lines.append('# a comment line')
             continue
         if what < 0.40:
-            lines.append(rng.choice(('global color=green dashlist=8 3 width=1', 'global color=blue font="helvetica 10 normal roman"')))
+            # successive global lines accumulate; a later one overrides the keys it repeats
+            gl = rng.choice(('global color=green dashlist=8 3 width=1', 'global color=blue font="helvetica 10 normal roman"',
+                             'global color=green dashlist=8 3 width=1 select=1 highlite=1 dash=0 fixed=0 edit=1 move=1 delete=1 include=1 source=1',
+                             'global width=4', 'global color=magenta width=2'))
+            lines.append(gl)
+            for kv in gl.split()[1:]:
+                if kv.startswith('color=') or kv.startswith('width='):
+                    glob[kv.split('=')[0]] = kv.split('=')[1]
             continue
         if what < 0.47:
             sh = rng.choice(UNSUPPORTED_SHAPES)
@@ -198,12 +205,14 @@ def check_file(res, rng):
             text = rng.choice(('hello', 'two words', 'semi;colon', 'a=b'))
             d = rng.choice(('{}', '""', "''"))
             props.append(f'text={d[0]}{text}{d[1]}')
+        color = glob.get('color')
         if rng.random() < 0.3:
             props.append('color=red')
+            color = 'red'               # per-region property overrides the global one
         lines.append(render(shape, toks, rng, sign, props))
         if frame is not None:
             for e in exps:
-                expected.append((SUPPORTED[frame], e, include, text))
+                expected.append((SUPPORTED[frame], e, include, text, color, glob.get('width')))
     content = ('\n' if rng.random() < 0.8 else ';').join(lines) if not any('semi;colon' in l for l in lines) or True else '\n'.join(lines)
     # ';' may replace newlines only when no line carries a '#' property list or comment (DS9 itself treats # to end of line)
     if ';' in content and '\n' not in content and any('#' in l for l in lines):
@@ -216,8 +225,15 @@ def check_file(res, rng):
     if len(got) != len(expected):
         res.violation(f'{len(expected)} regions expected, {len(got)} parsed', file=content, parsed=[type(r).__name__ for r in got])
         return content, len(expected)
-    for r, (fr, e, inc, text) in zip(got, expected):
+    for r, (fr, e, inc, text, color, width) in zip(got, expected):
         d = compare(r, fr, e, inc, text)
+        if not d:
+            gc = r.visual.get('color', r.visual.get('edgecolor'))
+            if gc != color:
+                d = f'colour: got {gc!r}, expected {color!r} (global lines and per-region property)'
+            gw = r.visual.get('linewidth', r.visual.get('markeredgewidth'))
+            if not d and (None if gw is None else float(gw)) != (None if width is None else float(width)):
+                d = f'line width: got {gw!r}, expected {width!r} (from the global lines)'
         if d:
             res.violation(d, file=content, region=str(r))
     return content, len(expected)
